@@ -514,6 +514,26 @@ def _real_values(fx, vd, vals):
 def apply_op(fx: Fixture, op, rng=None) -> Step:
     """Apply one op descriptor to the real objects; produce protocol lines, expectations and oracle findings."""
     st = Step()
+    if op['t'] == 'assign':
+        # the whole field is assigned (a deep copy of itself): every view read afterwards shows the new list; the views
+        # the fixture held belong to the replaced list and are dropped (model: a fresh start on the new items)
+        st.via = 'assign'
+        if not fx.raw_name:
+            return st
+        setattr(fx.raw_owner, fx.raw_name, copy.deepcopy(fx.raw))
+        fx.raw = getattr(fx.raw_owner, fx.raw_name)
+        fx.live = []
+        fx.pending = []
+        fx.next_id = max(fx.next_id, 100000)     # identities of the copied items: clear of the generator's range
+        st.lines.append(('V init ' + (','.join(f'{fx.ident(x)}:{ty_of(x)}:{val_of(x)}' for x in fx.items()) or '-'), 'ok ' + fx.dump() + ' ref=?'))
+        for k in range(len(fx.defs)):      # read every view now: each must show the new list
+            try:
+                fx.view(k)
+            except AttributeError:
+                pass
+        st.bad += check_views(fx)
+        fx.live = []
+        return st
     if op['t'] == 'move':
         # the model under test is moved into another document (append into a fresh File, or popped out again): every
         # child is re-attached to another token store; the views registered before the move keep describing the same list
@@ -572,6 +592,8 @@ def apply_op(fx: Fixture, op, rng=None) -> Step:
         st.via = vd.name
     else:
         target = fx.raw
+        if op['op'] in ('claim', 'unclaim') and not hasattr(target, 'claim_interleaving_comments'):
+            return st      # a deep copy of a with-comments wrapper is a plain wrapper (no claim methods): nothing to run
     raw_before = fx.items()
     pairs_before = fx.pairs()
     st.n_before = len(raw_before) if vd is None else sum(1 for x in raw_before if ty_of(x) in vd.tys)
@@ -922,6 +944,8 @@ def gen_op(rng, fx: Fixture, ids, allow_errors=True):
         return {'t': 'reg', 'v': rng.choice(unreg)}
     if registered and not isinstance(fx.root, models.File) and rng.random() < 0.05:
         return {'t': 'move'}
+    if registered and rng.random() < 0.04:
+        return {'t': 'assign'}
     if registered and rng.random() < 0.06:
         ty = rng.choice(fx.raw_tys)
         v = rng.randrange(50, 58)
